@@ -381,7 +381,9 @@ impl<const M: usize> Sim<M> {
             }
         }
         for m in msgs {
+            // (like any other overlap of two live blocks: the neighbour's bytes are now writable through a reference that is not its owner's)
             self.v("C01", m.clone());
+            self.v("C02", m.clone());
             self.v("C12", m);
         }
     }
@@ -575,6 +577,23 @@ impl<const M: usize> Sim<M> {
         self.last_cap = cap;
         // contents
         let mut bad: Option<(u32, usize, usize, bool)> = None;
+        // a live block whose chunk the arena has already given back must not be touched by the harness either (quarantined
+        // blocks are inaccessible): it is reported instead
+        let mut orphan: Option<(u32, usize, usize)> = None;
+        for b in self.blocks.iter() {
+            if b.size > 0 && self.locate(b.ptr, b.size).is_none() {
+                orphan = Some((b.id, b.ptr, b.size));
+                break;
+            }
+        }
+        if let Some((id, ptr, size)) = orphan {
+            let m = format!("live block #{id} [{ptr:#x}, +{size}) no longer lies in memory the arena holds: its chunk was given back to the global allocator while the block was still live (after {:?})", kind);
+            self.v("C03", m.clone());
+            self.v("C01", m);
+            let live: Vec<bool> = self.blocks.iter().map(|b| b.size == 0 || self.locate(b.ptr, b.size).is_some()).collect();
+            let mut it = live.into_iter();
+            self.blocks.retain(|_| it.next().unwrap_or(true));
+        }
         for b in self.blocks.iter() {
             if let Some(j) = unsafe { check_pat(b.id, b.ptr as *const u8, b.size, false) } {
                 bad = Some((b.id, j, b.size, b.kept));
